@@ -244,7 +244,7 @@ func (c *conn) ExecContext(ctx context.Context, query string, args []driver.Name
 		c.w.mu.Unlock()
 		return execResult{}, c.execDDL(ctx, query)
 	}
-	if c.w.realSQL {
+	if c.w.realSQL || ctx.Value(sysSQLKey) != nil {
 		res, err := c.sqlStatement(ctx, query)
 		if err != nil {
 			return nil, err
@@ -289,7 +289,7 @@ func (c *conn) QueryContext(ctx context.Context, query string, args []driver.Nam
 		}
 		return &simRows{cols: []string{"result"}, data: [][]driver.Value{{nil}}}, nil
 	}
-	if c.w.realSQL {
+	if c.w.realSQL || ctx.Value(sysSQLKey) != nil {
 		res, err := c.sqlStatement(ctx, query)
 		if err != nil {
 			return nil, err
@@ -350,8 +350,12 @@ func (c *conn) sqlStatement(ctx context.Context, query string) (*sqlResult, erro
 	if stmtTakesLocks(stmt) {
 		kinds = lockStmtKinds
 	}
-	if err := c.driverYield(ctx, "sql:"+verb+":"+table, "", kinds); err != nil {
-		return nil, err
+	if ctx.Value(sysSQLKey) == nil {
+		if err := c.driverYield(ctx, "sql:"+verb+":"+table, "", kinds); err != nil {
+			return nil, err
+		}
+	} else {
+		c.w.probe("system_store_sql:" + verb + ":" + table)
 	}
 	task := taskKeyOf(ctx)
 	st := &stmtState{}
